@@ -703,5 +703,11 @@ def replay(data):
         bad = r["exc"] == "Timeout" or r["wall"] > max(O.SLOW_ABS, O.SLOW_REL * ref["wall"]) or r["exc"] not in CLEAN or bool(r["audit"])
         print("still failing" if bad else "no longer failing")
         return 1 if bad else 0
+    if str(data.get("key", "")).startswith("env-read") and isinstance(case, dict) and "text" in case and not case["text"].endswith("...<cut>"):
+        r = C.run_impl("c11_impl.py", {"cases": [["script", case["text"]]], "limit": 30})[0]
+        print("real parse()+emit():", r)
+        bad = bool(r.get("env")) or r["exc"] not in CLEAN or bool(r["audit"])
+        print("still failing" if bad else "no longer failing")
+        return 1 if bad else 0
     from harness.props.c03_replay import replay_c11
     return replay_c11(data)
